@@ -408,7 +408,13 @@ func c11RogueReply(m *Sim, w *World, s *c11Server, srvs []*c11Server, dev *Devic
 	case 3: // a proper reply whose list bans other servers (GCA-signed bans)
 		var list []server.AuthorizedServer
 		for _, o := range srvs {
-			list = append(list, entry(o, m.C.Chance("ban", 1, 3)))
+			e := entry(o, m.C.Chance("ban", 1, 3))
+			if e.Banned && m.C.Chance("key-only-ban", 1, 3) {
+				// a ban that names the key only
+				e = SignServer(gca, server.AuthorizedServer{PublicKey: o.key.Pub, Banned: true})
+				m.Probe("c11.rogue.key-only-ban")
+			}
+			list = append(list, e)
 		}
 		m.Probe("c11.rogue.bans")
 		return signed(list), stall
